@@ -55,9 +55,30 @@ def twin_lists(res, rnd, cases):
                            theorem='C11_list_exact / C11_repeated_list', nontrivial=lambda c, m: True, kernel_sample=4)
 
 
+def reused_text_lists(res, rnd, cases):
+    """a matcher text that was first given to `filter` / `breakpoint` (where it is joined onto the current one) and is then given
+    to `list`: the listing depends on that text and the record alone, not on what the text was once joined with"""
+    n = 50 if res.tier == 'quick' else 2000
+    pool = ['wl_registry', 'xdg_toplevel', 'wl_surface', '.done', 'wl_display', 'wl_callback, wl_shm', 'wl_compositor.create_surface', '(wl_shm)',
+            '[wl_surface, wl_region]', 'wl_seat ! .name']
+    out = []
+    for _ in range(n):
+        c = sessioncheck.build_case(rnd, n_events=rnd.choice([15, 30, 45]), chatter=0.03, config=[None, None, 0, 1, 0])
+        a, b = rnd.sample(pool, 2)
+        tail = [rnd.choice(['filter ', 'breakpoint ']) + a, rnd.choice(['filter ', 'breakpoint ']) + b, 'list ' + b, 'list ' + a]
+        if rnd.random() < 0.5:
+            tail += [rnd.choice(['filter !', 'breakpoint !', 'filter *']), 'filter ' + b, 'list ' + b + ' ~ 3', 'list']
+        c['events'] = c['events'] + [['cmd', t] for t in tail]
+        c['impl_events'] = c['impl_events'] + [('cmd', t) for t in tail]
+        out.append(c)
+    sessioncheck.run_cases(res, out, lambda cat: cat.startswith('out.cmd') or cat.startswith('final.ctrl'), 'C11 (matcher text used in filter/breakpoint, then listed)',
+                           theorem='C11_list_exact / C11_readonly', nontrivial=lambda c, m: True, kernel_sample=4)
+
+
 def extras(res, rnd, cases):
     sink_lists(res, rnd, cases)
     twin_lists(res, rnd, cases)
+    reused_text_lists(res, rnd, cases)
 
 
 INFO, run, replay = sessprop.make(
